@@ -17,7 +17,7 @@ RULE = ('rasters <= 12x12 (mostly <= 8x8) over alphabets of 1-4 values from stru
         'absent / all-true / random / structured / all-false with bool/int/float mask dtype; connectivity 4 and 8; transform absent '
         'or dyadic affine (scales, flips, rotations, shears, offsets); 30% of the float rasters get +inf/-inf/NaN cells (inf equals only '
         'itself, NaN nothing). Thorough additionally enumerates every 0/1 raster of every '
-        'shape with <= 12 cells (<= 9 with a mask). A case is non-trivial when it has >= 1 unmasked cell; distinct by JSON encoding.')
+        'shape with <= 11 cells (<= 8 with a mask: every {masked,0,1} assignment). A case is non-trivial when it has >= 1 unmasked cell; distinct by JSON encoding.')
 TRUSTED = [
     'raster values are embedded into Z by a per-case power-of-two scale; _is_close is modelled at exact equality — for float '
     'rasters the generators only use dyadic values spaced >= 0.25 with magnitude <= 16, where abs(a-b) <= 1e-8+1e-5*abs(a) is equality',
@@ -137,7 +137,12 @@ def oracle_polygons(case, column, polys):
     lab, ncomp = components(vals, mask, conn8)
     if len(column) != len(polys):
         return 'column has %d entries for %d polygons' % (len(column), len(polys))
-    fr = [[[(Fraction(x), Fraction(y)) for x, y in ring] for ring in rings] for rings in polys]
+    for k, rings in enumerate(polys):
+        for r, ring in enumerate(rings):
+            for x, y in ring:
+                if not (float(x).is_integer() and float(y).is_integer() and 0 <= x <= nx and 0 <= y <= ny):
+                    return 'polygon %d ring %d vertex (%s, %s) is not a cell corner of the %dx%d raster' % (k, r, x, y, ny, nx)
+    fr = [[[(int(x), int(y)) for x, y in ring] for ring in rings] for rings in polys]   # exact: all vertices are integers
     for k, rings in enumerate(fr):
         if not rings:
             return 'polygon %d has no exterior' % k
@@ -146,9 +151,6 @@ def oracle_polygons(case, column, polys):
                 return 'polygon %d ring %d has only %d points' % (k, r, len(ring))
             if ring[0] != ring[-1]:
                 return 'polygon %d ring %d is not closed' % (k, r)
-            for x, y in ring:
-                if x.denominator != 1 or y.denominator != 1 or not (0 <= x <= nx and 0 <= y <= ny):
-                    return 'polygon %d ring %d vertex (%s, %s) is not a cell corner of the %dx%d raster' % (k, r, x, y, ny, nx)
             for (x1, y1), (x2, y2) in zip(ring, ring[1:]):
                 if (x1 != x2) == (y1 != y2):
                     return 'polygon %d ring %d edge (%s,%s)-(%s,%s) is not a non-degenerate axis-parallel edge' % (k, r, x1, y1, x2, y2)
@@ -158,7 +160,6 @@ def oracle_polygons(case, column, polys):
             if r > 0 and not a2 < 0:
                 return 'polygon %d hole %d is not clockwise (2*area = %s)' % (k, r, a2)
     owner = [[[] for _ in range(nx)] for _ in range(ny)]
-    fr = [[[(int(x), int(y)) for x, y in ring] for ring in rings] for rings in fr]   # all vertices are integers here
     for k, rings in enumerate(fr):
         cnt = 0
         for j in range(ny):
@@ -169,7 +170,7 @@ def oracle_polygons(case, column, polys):
                     cnt += 1
         area2 = sum(shoelace2(r) for r in rings)
         if area2 != 2 * cnt:
-            return 'polygon %d: area (exterior minus holes) %s != its cell count %d' % (k, area2 / 2, cnt)
+            return 'polygon %d: area (exterior minus holes) %s != its cell count %d' % (k, Fraction(area2, 2), cnt)
     comp_of_poly = {}
     for j in range(ny):
         for i in range(nx):
@@ -315,8 +316,8 @@ def compare_poly(case, impl, model_out, vs, ts):
         if len(a) != len(b):
             return 'polygon %d: %d rings vs model %d' % (k, len(a), len(b))
         for r, (ra, rb) in enumerate(zip(a, b)):
-            sa = [(Fraction(x) * ts, Fraction(y) * ts) for x, y in ra]
-            if sa != [(Fraction(x), Fraction(y)) for x, y in rb]:
+            # ts is a power of two and all coordinates are dyadic and small: the float products are exact
+            if [(x * ts, y * ts) for x, y in ra] != [(float(x), float(y)) for x, y in rb]:
                 return 'polygon %d ring %d vertex list differs: implementation %r vs model %r (scale %d)' % (k, r, ra, rb, ts)
     return None
 
@@ -779,7 +780,7 @@ def run(ctx):
                             mask_kind='none' if mk is None else 'structured', connectivity=conn, transform=None)
                 ctx.count('fixed/conn%d/%s' % (conn, 'mask' if mk else 'nomask'))
                 check_case(ctx, pz, case, pending)
-    n = 3000 if ctx.quick() else 40000
+    n = 3000 if ctx.quick() else 20000
     for t in range(n):
         case = gen_case(rng, combos)
         ctx.count('%s/conn%d/%s/%s/mask-%s%s' % (case['family'], case['connectivity'],
@@ -791,7 +792,7 @@ def run(ctx):
             flush(ctx, pending)
     flush(ctx, pending)
     # exhaustive sub-domain (the python side of the bounded Coq theorem: same domain against the REAL code)
-    mc, mcm = (8, 5) if ctx.quick() else (12, 9)
+    mc, mcm = (8, 5) if ctx.quick() else (11, 8)
     for case in exhaustive_cases(mc, mcm):
         ctx.count('%s/%dx%d' % (case['family'], case['ny'], case['nx']))
         check_case(ctx, pz, case, pending)
